@@ -246,6 +246,9 @@ def run(ctx):
     f = ctx.facts("default")
     ctx.run_rule("L1", lambda c: lc.rule_local_counter(c, f, "L1"))
     ctx.run_rule("L5", lambda c: rule_local_histogram(c, f, "L5"))
+    from . import C06, C08
+    ctx.rule("L7", "the local histogram buckets by the same rule as the shared one (shared with C08.R4): first bound with v <= bound, count and sum unconditional")
+    ctx.run_rule("L7", lambda c: C06._as(c, "L7", lambda s: C08.rule_R4(s, f)))
     ctx.run_rule("L10", lambda c: rule_vec_forms(c, f, "L10"))
     ctx.run_rule("L11", lambda c: rule_auto_flush(c, f, "L11"))
     from . import controls
